@@ -112,6 +112,7 @@ func runDList(c dlistCase, r *pb.Rec) error {
 		}
 		return out[sel%len(out)]
 	}
+	var afterInit []*handle // node objects whose list was re-initialised (used again only as the node of Push*Node)
 	interesting := false
 	compare := func(where string) error {
 		for i := 0; i < 2; i++ {
@@ -215,6 +216,15 @@ func runDList(c dlistCase, r *pb.Rec) error {
 			}
 		case dPushFrontNode, dPushBackNode:
 			h := pickOutside(o.H)
+			if len(afterInit) > 0 && o.H%4 == 1 {
+				// a node object of a list that has been re-initialised since: it is in no list any more and is pushed like
+				// a fresh one (it only ever becomes a handle again by being inserted here)
+				h = afterInit[len(afterInit)-1]
+				afterInit = afterInit[:len(afterInit)-1]
+				h.owner, h.s = -1, nil
+				hs = append(hs, h)
+				r.Class("node of a re-initialised list pushed again")
+			}
 			if o.K == dPushFrontNode {
 				l.PushFrontNode(h.d)
 				h.s = s.PushFront(h.d.Value)
@@ -334,6 +344,8 @@ func runDList(c dlistCase, r *pb.Rec) error {
 			for _, h := range hs {
 				if h.owner != w {
 					kept = append(kept, h)
+				} else {
+					afterInit = append(afterInit, h)
 				}
 			}
 			hs = kept
@@ -559,7 +571,7 @@ func runSList(c slistCase, r *pb.Rec) error {
 func init() {
 	pb.Register("dlist_vs_container_list", pb.Options{Twins: 3, Base: 10000,
 		Required: []string{"insert with stale/foreign mark", "move with stale/foreign node", "remove of stale/foreign node", "list copied onto itself", "node pushed", "Init", "zero-value list", "move relative to itself"},
-		Rule:     "<= 60 operations over two DLists (zero value or NewDoubly) in lock step with two container/list lists: every exported method, handles drawn from live nodes of either list and removed nodes, Push*Node/InsertNode* with fresh or removed nodes only, PushBackDList/PushFrontDList with self and other, Init (handles dropped); oracle after every step: values forward/backward/All, Len, nil-ness of returned nodes, Remove's value, Next/Prev of every handle; non-trivial = Move*/Insert* with a stale or foreign handle or a list copied onto itself"},
+		Rule:     "<= 60 operations over two DLists (zero value or NewDoubly) in lock step with two container/list lists: every exported method, handles drawn from live nodes of either list and removed nodes, Push*Node/InsertNode* with fresh or removed nodes only, PushBackDList/PushFrontDList with self and other, Init (handles dropped; the node objects may come back through Push*Node); oracle after every step: values forward/backward/All, Len, nil-ness of returned nodes, Remove's value, Next/Prev of every handle; non-trivial = Move*/Insert* with a stale or foreign handle or a list copied onto itself"},
 		genDList, runDList)
 	pb.Register("slist_sequence", pb.Options{Twins: 3, Base: 10000, Required: []string{"remove at first/last of a tiny list", "index clamped", "zero-value list", "index at a limit of int / 32-bit boundary"},
 		Rule: "<= 50 operations on an SList (sizes kept small): Get/Remove/RemoveFront/PushFront/PushBack/InsertAt/Push*Node/InsertNodeAt (fresh or removed nodes)/Swap with indices -2..len+3 and (one operation in eight) at the limits of int and the 32-bit boundaries; oracle: slice model; Front/Back/Len/Next-traversal/All after every step; non-trivial = Remove/Insert at index 0 or len-1 of a list of size <= 2"},
